@@ -332,16 +332,19 @@ impl Harness for UdpConc {
         for _ in 0..r.below(5) {
             pre.push(Op::Ann { t: r.below(3) as u8, h: r.below(5) as u8, stop: false, seeder: r.chance(300), dl: dl(&mut r) });
         }
-        let n_threads = r.range(2, 4) as usize;
+        // thorough tier: a share of larger "stress" programs (4 threads, up to 5 operations each)
+        let stress = tier == Tier::Thorough && r.chance(300);
+        let n_threads = if stress { 4 } else { r.range(2, 4) as usize };
+        let max_total = if stress { 20 } else { 10 };
         let mut threads: Vec<Vec<Op>> = Vec::new();
         let mut total = 0;
         // one thread cleans in most programs: the interesting races are announce vs. clean
         let cleaner = if r.chance(850) { Some(r.below(n_threads as u64) as usize) } else { None };
         for i in 0..n_threads {
-            let n_ops = r.range(1, 3) as usize;
+            let n_ops = if stress { r.range(3, 5) } else { r.range(1, 3) } as usize;
             let mut ops = Vec::new();
             for j in 0..n_ops {
-                if total >= 10 {
+                if total >= max_total {
                     break;
                 }
                 total += 1;
@@ -365,7 +368,7 @@ impl Harness for UdpConc {
         }
         let iters = match tier {
             Tier::Quick => 1500,
-            Tier::Thorough => 10000,
+            Tier::Thorough => if stress { 4000 } else { 10000 },
         };
         let kind = if r.chance(800) { 0 } else { 1 };
         Scn { pre, threads, sched: Sched { kind, seed: r.next_u64(), depth: r.range(1, 4) as usize, iters }, replay: None }
